@@ -35,6 +35,13 @@ Definition lookup_user (db : passwd) (s : string) : option user :=
   | None => match parse_u32 s with Some i => by_uid db i | None => None end
   end.
 
+(* task/valid.rs::get_task: how the command line (--become, -u USER) and the task keywords combine: become if either
+   says so; the task's own become_user wins over the command line's *)
+Record global_params := { g_become : bool; g_user : string }.
+Definition effective_become (g : global_params) (t_become : bool) : bool := if g_become g then true else t_become.
+Definition effective_user (g : global_params) (t_user : option string) : string :=
+  match t_user with Some u => u | None => g_user g end.
+
 Record creds := { c_uid : N; c_gid : N }.
 
 Inductive path_taken :=
@@ -127,6 +134,12 @@ Qed.
 Theorem unknown_user_fails db cur p :
   b_become p = true -> lookup_user db (b_user p) = None -> path_of db cur p = UserNotFound /\ module_creds db cur p = None.
 Proof. intros B L. unfold module_creds, path_of. rewrite B, L. auto. Qed.
+
+(* a task's own become_user is honoured whatever the command line says *)
+Theorem task_user_wins g u : effective_user g (Some u) = u.
+Proof. reflexivity. Qed.
+Theorem command_line_become_applies_to_every_task g tb : g_become g = true -> effective_become g tb = true.
+Proof. unfold effective_become. now intros ->. Qed.
 
 (* sanity: a passwd with a user whose gid differs from its uid, by name and by number; a numeric string
    that is also a NAME; out-of-range and malformed numbers *)
